@@ -104,11 +104,53 @@ def _work(item):
     ris = [c05._ALPHA[famname][i][1] for i in idxs]
     out = {"bad": [], "n": 0, "sig": []}
     has_flag = any(r.tag in FLAG_MN for r in ris)
+    if has_flag and gap == 0:
+        # two graphs over the same instruction objects (without and with flag dependencies, as a
+        # tool holding both would have them): asking one must not change the answer of the other
+        try:
+            mm, sem = fam.load()
+            parser, kernel = dgfam.parsed_kernel(fam.isa, [r.text for r in ris])
+            sem.add_semantics(kernel)
+            g0 = drive.graph_only(kernel, parser, mm, sem, False)
+            g1 = drive.graph_only(kernel, parser, mm, sem, True)
+            first = (sum(x.latency_cp for x in g0.get_critical_path()),
+                     [x.line_number for x in g0.get_critical_path()])
+            other = sum(x.latency_cp for x in g1.get_critical_path())
+            again = (sum(x.latency_cp for x in g0.get_critical_path()),
+                     [x.line_number for x in g0.get_critical_path()])
+            out["n"] += 1
+            if again != first:
+                out["bad"].append(("interleaved", False, "critical path without flag dependencies "
+                                   "%r, after asking the graph with flag dependencies (%.3f) the "
+                                   "same graph answers %r" % (first, other, again)))
+            # semantics applied once more to the same objects (a second report on a kept graph)
+            sem.add_semantics(kernel)
+            third = (sum(x.latency_cp for x in g0.get_critical_path()),
+                     [x.line_number for x in g0.get_critical_path()])
+            out["n"] += 1
+            if third != first:
+                out["bad"].append(("interleaved", False, "critical path %r, after the semantics "
+                                   "were applied to the kernel again: %r" % (first, third)))
+        except Exception:
+            out["bad"].append(("exception", False, traceback.format_exc()[-1200:]))
     for flags in ((True, False) if has_flag else (False,)):
         try:
             kernel, g = dgfam.observe(fam, ris, flags, full=False,
                                       line_numbers=gapped_numbers(len(ris), gap))
             probs, n, sig = check_cp(kernel, g)
+            if gap == 0 and any(r.tag == "mv0" for r in ris):
+                # the report marks exactly the instructions of the critical path - also those
+                # that contribute a latency of zero
+                from mc.ref import report as RP
+                cp = g.get_critical_path()
+                text = c05._FE[famname].combined_view(kernel, cp, {})
+                rep = RP.parse(text.lstrip("\n"))
+                marked = [row["line_number"] for row in rep.rows if row["cp"] is not None]
+                n += 1
+                if marked != [x.line_number for x in cp]:
+                    probs.append(("report-marks", "the report marks lines %r in its CP column, "
+                                  "the critical path is %r" % (marked,
+                                                               [x.line_number for x in cp])))
             out["n"] += n
             out["sig"].append(sig)
             for kind, what in probs:
